@@ -46,6 +46,7 @@ func TestC27(t *testing.T) {
 	c := kit.NewCheck(t, "C27", "exploration", c27Rule)
 	defer c.Finish()
 	c.Assume("keys are non-empty byte strings (an empty key cannot exist in an SDK KV store; a lookup of it panics in the store layer)")
+	c.Assume("the harness never overwrites or deletes the 02-client parameter key: the client keeper needs it to route any call to the localhost module")
 	c.Assume("the reference view of the ibc store is the committed store content read through the multistore plus the harness' own writes in the verifying block")
 	c.Floor("verify_calls", 2000)
 	c.Floor("membership_accepted", 150)
@@ -126,8 +127,15 @@ func TestC27(t *testing.T) {
 			for j := 0; j < nops; j++ {
 				// occasionally mutate the store inside the block: the client must see the chain's own, current store
 				if r.Chance(1, 6) {
-					pool := present
-					if !discard {
+					// the client keeper reads its own parameters before it routes to the localhost module: never touch that key
+					var pool []string
+					if discard {
+						for _, k := range present {
+							if k != clienttypes.ParamsKey {
+								pool = append(pool, k)
+							}
+						}
+					} else {
 						pool = verifKeys()
 					}
 					kindW := r.Intn(3)
